@@ -7,12 +7,13 @@
                                            Proofs/DotSegments.v (rds_walk_rfc)
      2. scheme_link, query_link, fragment_link, auth_link
      3. normalize_text_is_spec, normalize_to_text_is_spec, parsed_meets_hyps
-     4. parsed_five_of_text, parsed_normal_text *)
+     4. parsed_five_of_text, parsed_normal_five, parsed_normal_text, parsed_normal_text_canon *)
 From Coq Require Import List NArith Bool Lia ZifyBool ZifyN Arith.
 From UP Require Import Base.Chars Base.Regex Model.Uri Model.Common Model.Normalize Model.Recompose Model.Ip4 Model.Parse
   Spec.NormalWf Spec.Split Spec.Unparse Proofs.NormalizeProofs Proofs.NormalizeLink Proofs.DotSegments
   Proofs.ParseData Proofs.ParseWfStep Proofs.ParseWf Proofs.ParseSplit.
-From UP Require Spec.Normal Spec.Resolve Proofs.ResolveProofs Proofs.Ip4Proofs.
+From UP Require Spec.Normal Spec.Resolve Spec.Rfc3986 Spec.Recompose Proofs.ResolveProofs Proofs.Ip4Proofs Proofs.Ip6Proofs
+  Proofs.ParseRecompose Proofs.ParseAssemble.
 Import ListNotations.
 Local Open Scope N_scope.
 
@@ -292,33 +293,48 @@ Proof.
   destruct (absolutePath u || negb match pathSegs u with [] => true | _ :: _ => false end && is_host_set u); reflexivity.
 Qed.
 
-Lemma host_pieces_normalized u : uri_pct_wf u = true -> auth_wfb u = true -> ip6 u = None ->
-  ip4_rendered u = true ->
+(* the bytes of an IPv6 host print as the host text: the literal is in the full eight-group lower-case
+   form uriToString writes (for any other literal uriToString's text differs from the text parsed, and
+   the specification's normal form keeps the literal as written) *)
+Definition ip6_rendered (u : uri) : bool :=
+  match ip6 u with
+  | Some b => Resolve.text_eqb (concat (ip6_byte_pieces b 0)) (match hostText u with Some t => t | None => [] end)
+  | None => true
+  end.
+
+Lemma ip6_none_rendered u : ip6 u = None -> ip6_rendered u = true.
+Proof. unfold ip6_rendered. intros ->. reflexivity. Qed.
+
+Lemma host_pieces_normalized u : uri_pct_wf u = true -> auth_wfb u = true ->
+  ip4_rendered u = true -> ip6_rendered u = true ->
   concat (host_pieces (normalize 63 u)) = RP.host_written (normalize 63 u).
 Proof.
-  intros Hwf Ha H6 H4. rewrite (normalize_full_fields u Hwf).
+  intros Hwf Ha H4 H6. rewrite (normalize_full_fields u Hwf).
   destruct u as [sc ui ht i4 i6 ifu po ps qu fr ab ow].
-  unfold auth_wfb, ip4_rendered in *. unfold host_pieces, RP.host_written, is_regname.
+  unfold auth_wfb, ip4_rendered, ip6_rendered in *. unfold host_pieces, RP.host_written, is_regname.
   cbn [scheme userInfo hostText ip4 ip6 ipFuture portText pathSegs query fragment absolutePath owner] in *.
-  subst i6.
   destruct ht as [h|].
   2:{ unfold is_host_set in Ha. cbn [hostText ip4 ip6 ipFuture] in Ha.
-      destruct i4, ifu; try discriminate Ha. reflexivity. }
+      destruct i4, i6, ifu; try discriminate Ha. reflexivity. }
   apply andb_prop in Ha. destruct Ha as [_ Hk].
-  destruct i4 as [o|], ifu as [f|]; try discriminate Hk.
+  destruct i4 as [o|], i6 as [b|], ifu as [f|]; try discriminate Hk.
   - apply text_eqb_eq in H4. cbn [is_some negb andb omap]. exact H4.
+  - apply text_eqb_eq in H6. cbn [is_some negb andb omap]. rewrite !concat_app. cbn [concat app].
+    rewrite H6. reflexivity.
   - cbn [omap concat app]. reflexivity.
   - cbn [is_some negb andb omap concat app]. rewrite app_nil_r. reflexivity.
 Qed.
 
-Theorem normalize_to_text_is_spec u : text_hyps u = true -> ip4_rendered u = true -> ip6 u = None ->
+(* hosts: registered names, IPv4 addresses whose octets print as the host text, IPvFuture literals, and
+   IPv6 literals in uriToString's form *)
+Theorem normalize_to_text_is_spec u : text_hyps u = true -> ip4_rendered u = true -> ip6_rendered u = true ->
   relative_ref u = false ->
   to_text (normalize 63 u)
   = Resolve.recompose (Normal.guard_normal (RP.five_of_uri u) (Normal.five_normal (RP.five_of_uri u))).
 Proof.
   intros H H4 H6 Hrel. rewrite <- (normalize_text_is_spec u H Hrel).
   apply to_text_recompose_host. unfold text_hyps in H. apply andb_prop in H. destruct H as [H Ha].
-  apply andb_prop in H. destruct H as [Hp _]. exact (host_pieces_normalized u Hp Ha H6 H4).
+  apply andb_prop in H. destruct H as [Hp _]. exact (host_pieces_normalized u Hp Ha H4 H6).
 Qed.
 
 (* ---- every parsed object meets the hypotheses ---- *)
@@ -609,5 +625,95 @@ Theorem parsed_normal_text s u : parse s = POk u -> relative_ref u = false -> ip
 Proof.
   intros H Hrel H6. unfold Normal.normal_text. cbv zeta. rewrite <- (parsed_five_of_text s u H).
   destruct (parsed_meets_hyps s u H) as [Hh H4].
-  exact (normalize_to_text_is_spec u Hh H4 H6 Hrel).
+  exact (normalize_to_text_is_spec u Hh H4 (ip6_none_rendered u H6) Hrel).
+Qed.
+
+(* ---- IPv6 literals ---- *)
+(* uriToString writes an IPv6 host from its sixteen bytes, in full eight-group lower-case form, whatever
+   the literal parsed was; the specification's normal form keeps a literal as written.  So for an IPv6
+   host the text of the normalized object is the normal form of the text with the literal rewritten
+   in that form: Spec.Recompose.canon_ip6 (Spec/Recompose.v, property C04: to_text u = canon_ip6 s), which
+   is the identity on every text without an IPv6 literal. *)
+Lemma to_text_set_hostText_ip6 x u : ip6 u <> None -> to_text (set_hostText x u) = to_text u.
+Proof.
+  destruct u as [sc ui ht i4 i6 fu po ps qu fr ab ow]. cbn [ip6]. intros H. destruct i6 as [b|]; [|contradiction].
+  unfold to_text, pieces, set_hostText, is_host_set.
+  cbn [scheme userInfo hostText ip4 ip6 ipFuture portText pathSegs query fragment absolutePath owner].
+  destruct x, ht, i4; reflexivity.
+Qed.
+
+Lemma normalize_set_hostText_ip6 x u : ip6 u <> None -> ipFuture u = None ->
+  normalize 63 (set_hostText (Some x) u) = set_hostText (Some x) (normalize 63 u).
+Proof.
+  intros H6 Hf. rewrite !(normalize_fields 63 _ ltac:(discriminate)).
+  change (bit 63 M_SCHEME) with true. change (bit 63 M_USER_INFO) with true. change (bit 63 M_HOST) with true.
+  change (bit 63 M_PATH) with true. change (bit 63 M_QUERY) with true. change (bit 63 M_FRAGMENT) with true.
+  cbv iota.
+  destruct u as [sc ui ht i4 i6 fu po ps qu fr ab ow].
+  cbn [scheme userInfo hostText ip4 ip6 ipFuture portText pathSegs query fragment absolutePath owner set_hostText] in *.
+  subst fu. destruct i6 as [b|]; [|contradiction].
+  unfold norm_host_text, norm_segs, relative_ref, is_host_set.
+  cbn [scheme userInfo hostText ip4 ip6 ipFuture portText pathSegs query fragment absolutePath owner omap].
+  destruct ht, i4; reflexivity.
+Qed.
+
+Theorem parsed_normal_text_canon s u : parse s = POk u -> relative_ref u = false ->
+  to_text (normalize 63 u) = Normal.normal_text (Spec.Recompose.canon_ip6 s).
+Proof.
+  intros H Hrel. destruct (ip6 u) as [b|] eqn:E6.
+  2:{ rewrite (ParseRecompose.canon_ip6_id s u H E6). exact (parsed_normal_text s u H Hrel E6). }
+  pose proof (ParseAssemble.parse_reparse_full s u H) as H2.
+  rewrite (ParseAssemble.parse_to_text_full s u H) in H2.
+  destruct (parse_wf s u H) as (_ & (_ & Hf) & _ & _).
+  destruct (hostText u) as [h|] eqn:Eh; [|destruct Hf as (_ & Hf & _); rewrite Hf in E6; discriminate E6].
+  destruct Hf as [_ Hf]. rewrite E6 in Hf. destruct (ipFuture u) as [f|] eqn:Efu; [contradiction|].
+  destruct Hf as (_ & Eb & _).
+  assert (Mh : matches Rfc3986.IPv6address h)
+    by (apply (ParseAssemble.parsed_ip6_matches s u h H Eh); rewrite E6; discriminate).
+  destruct (Ip6Proofs.ip6_bytes_value h Mh) as [_ Hl16]. pose proof (Ip6Proofs.ip6_bytes_octets h Mh) as Ho.
+  rewrite <- Eb in Hl16, Ho.
+  pose proof (Ip6Proofs.ip6_render b Hl16 Ho) as Eg.
+  assert (ParseAssemble.canon_host u = set_hostText (Some (Spec.Recompose.groups_text b)) u) as Ev
+    by (unfold ParseAssemble.canon_host; rewrite E6; reflexivity).
+  rewrite Ev in H2. set (v := set_hostText (Some (Spec.Recompose.groups_text b)) u) in *.
+  assert (ip6 u <> None) as N6 by (rewrite E6; discriminate).
+  assert (to_text (normalize 63 u) = to_text (normalize 63 v)) as Et.
+  { unfold v. rewrite (normalize_set_hostText_ip6 _ u N6 Efu). rewrite to_text_set_hostText_ip6; [reflexivity|].
+    rewrite (proj1 (proj2 (normalize_untouched 63 u))). exact N6. }
+  rewrite Et. unfold Normal.normal_text. cbv zeta. rewrite <- (parsed_five_of_text _ v H2).
+  destruct (parsed_meets_hyps _ v H2) as [Hh H4].
+  apply normalize_to_text_is_spec; [exact Hh|exact H4| |].
+  - unfold ip6_rendered, v. destruct u as [sc ui ht i4 i6 fu po ps qu fr ab ow].
+    cbn [ip6 hostText set_hostText] in *. rewrite E6, Eg. apply text_eqb_refl.
+  - unfold v. revert Hrel. unfold relative_ref, is_host_set. destruct u as [sc ui ht i4 i6 fu po ps qu fr ab ow].
+    cbn [scheme ip6 ip4 ipFuture hostText absolutePath set_hostText] in *. rewrite E6.
+    intros _. rewrite !orb_true_r. cbn [orb negb]. apply andb_false_r.
+Qed.
+
+(* ================================================================ the hypotheses cannot be dropped *)
+(* relative-path references: "a/.." -- uriparser leaves the empty text, the specification "./" (finding
+   D7; Props/C08.v, end of file) *)
+Lemma normal_text_relative_refuted :
+  exists s u, parse s = POk u /\ relative_ref u = true /\ to_text (normalize 63 u) <> Normal.normal_text s.
+Proof. exists [97; 47; 46; 46]. eexists. split; [vm_compute; reflexivity|]. split; [reflexivity|]. vm_compute. discriminate. Qed.
+
+(* an IPv6 literal that is not in uriToString's form: "s://[::A]/x/../y" is written back as
+   "s://[0000:0000:0000:0000:0000:0000:0000:000a]/y", its normal form keeps "[::A]" *)
+Lemma normal_text_ip6_as_written_refuted :
+  exists s u, parse s = POk u /\ relative_ref u = false /\ ip6 u <> None
+              /\ to_text (normalize 63 u) <> Normal.normal_text s.
+Proof.
+  exists [115; 58; 47; 47; 91; 58; 58; 65; 93; 47; 120; 47; 46; 46; 47; 121]. eexists.
+  split; [vm_compute; reflexivity|]. split; [reflexivity|]. split; vm_compute; discriminate.
+Qed.
+
+(* an object (not a parsed one) whose authority text does not split into its own fields: user info "A@B",
+   host "h" -- written "A@B@h", which the specification reads as user info "A", host "B@h" *)
+Lemma auth_wfb_needed_refuted :
+  exists u, uri_pct_wf u = true /\ RP.wf u = true /\ relative_ref u = false /\ auth_wfb u = false
+            /\ RP.five_of_uri (normalize 63 u)
+               <> Normal.guard_normal (RP.five_of_uri u) (Normal.five_normal (RP.five_of_uri u)).
+Proof.
+  exists (mkUri None (Some [65; 64; 66]) (Some [104]) None None None None [] None None false false).
+  repeat split; try reflexivity. vm_compute. discriminate.
 Qed.
